@@ -1,0 +1,48 @@
+//go:build verif
+
+package badger
+
+import (
+	"github.com/dgraph-io/badger/v4/vhook"
+	"github.com/dgraph-io/ristretto/v2/z"
+)
+
+// verifDoWritesChoice is used only under simulation. When more than one case
+// of the doWrites select is ready, it lets the simulator pick the branch
+// instead of the Go runtime. Returns act: 0 = nothing decided (fall through to
+// the select), 1 = received r from writeCh, 2 = pushed to pendingCh,
+// 3 = closer observed.
+func (db *DB) verifDoWritesChoice(pendingCh chan struct{}, lc *z.Closer) (*request, int) {
+	var acts [3]int
+	n := 0
+	if len(db.writeCh) > 0 {
+		acts[n] = 1
+		n++
+	}
+	if len(pendingCh) < cap(pendingCh) {
+		acts[n] = 2
+		n++
+	}
+	select {
+	case <-lc.HasBeenClosed():
+		acts[n] = 3
+		n++
+	default:
+	}
+	if n < 2 {
+		return nil, 0
+	}
+	c := vhook.Choose("doWrites.select", n)
+	if c < 0 || c >= n {
+		return nil, 0
+	}
+	switch acts[c] {
+	case 1:
+		return <-db.writeCh, 1
+	case 2:
+		pendingCh <- struct{}{}
+		return nil, 2
+	default:
+		return nil, 3
+	}
+}
